@@ -39,6 +39,10 @@ type wtWaiter struct {
 	hold   bool
 	atGate bool
 	gate   chan struct{}
+	// startheld: park before the holdAt-th lock the waiter's goroutine takes (counted in locks), whichever
+	// critical section that is in the current source
+	holdAt int
+	locks  int
 }
 
 type wtTimer struct {
@@ -62,6 +66,27 @@ type wtCase struct {
 	failed   bool
 	mainGid  int64
 	nontriv  bool
+	// lost: the waiter ran a critical section the model has no notion of (the code was restructured): from
+	// then on the case goes on WITHOUT the model (events become comments), the Go-side monitors still judge it
+	lost   bool
+	script []string
+}
+
+// how: the harness script of the case, appended to a verdict once the event trace no longer tells the story
+func (c *wtCase) how() string {
+	if !c.lost {
+		return ""
+	}
+	return " [harness script: " + strings.Join(c.script, "; ") + "]"
+}
+
+// op writes an event line for the driver, or a comment once the model has been left behind
+func (c *wtCase) op(op, out string) {
+	if c.lost {
+		c.ctx.R.Comment(op + " | " + out)
+		return
+	}
+	c.ctx.R.Op(op, out)
 }
 
 func fmtTable(m map[string]int) string {
@@ -100,7 +125,7 @@ func (c *wtCase) flush(mainEvent string) {
 		if r.gid == c.mainGid {
 			if mainEvent != "" {
 				for _, ev := range strings.Split(mainEvent, ";") {
-					c.ctx.R.Op(ev, "ok") // (a PutMany is several writes inside ONE critical section)
+					c.op(ev, "ok") // (a PutMany is several writes inside ONE critical section)
 				}
 				mainEvent = ""
 			} else {
@@ -109,15 +134,17 @@ func (c *wtCase) flush(mainEvent string) {
 		} else if w := c.waiterOf(r.gid); w != nil {
 			kind := map[string]string{"WaitForVersionChange#1": "check", "WaitForVersionChange#2": "cancelled", "WaitForVersionChange#3": "timer"}[r.site]
 			if kind == "" {
-				c.ctx.R.Quiet("mon C07-known-sections", "waiter ran an unexpected critical section "+r.site)
-				c.failed = true
+				if !c.lost {
+					c.ctx.R.Quiet("mon MODEL-waiter-sections-known", "waiter ran a critical section the model does not know: "+r.site+" (the rest of this case is judged by the Go-side monitors only)")
+					c.lost = true
+				}
 				continue
 			}
-			c.ctx.R.Op(fmt.Sprintf("sec %d %s", w.idx, kind), "ok")
+			c.op(fmt.Sprintf("sec %d %s", w.idx, kind), "ok")
 		} else {
 			continue
 		}
-		c.ctx.R.Op("table "+r.tbl, "ok")
+		c.op("table "+r.tbl, "ok")
 	}
 }
 
@@ -135,7 +162,7 @@ func (c *wtCase) settle() {
 			case r := <-w.result:
 				w.done = true
 				c.flush("")
-				c.ctx.R.Op(fmt.Sprintf("ret %d %s", w.idx, r), "ok")
+				c.op(fmt.Sprintf("ret %d %s", w.idx, r), "ok")
 				// C07 monitor on the real call: the verdict is sound w.r.t. the harness' own view of the store
 				continue
 			default:
@@ -243,12 +270,12 @@ func (c *wtCase) missedWakeups() {
 			if !(g2.state == "select" && strings.Contains(g2.stack, "WaitForVersionChange")) {
 				return
 			}
-			c.ctx.R.Quiet("mon C07-no-missed-wakeup", fmt.Sprintf("waiter %d is still parked on %s although the record's expiry has passed and every due expiry timer was fired (no timer armed for this waiter?)", w.idx, w.key))
+			c.ctx.R.Quiet("mon C07-no-missed-wakeup", fmt.Sprintf("waiter %d is still parked on %s although the record's expiry has passed and every due expiry timer was fired (no timer armed for this waiter?)", w.idx, w.key)+c.how())
 			c.failed = true
 			continue
 		}
 		if cur, ok := vers[w.key]; !ok || cur != w.resolved {
-			c.ctx.R.Quiet("mon C07-no-missed-wakeup", fmt.Sprintf("waiter %d is parked awaiting a change of %s from version ordinal %d, but the record is %s", w.idx, w.key, w.verOrd, map[bool]string{true: "at another version", false: "gone"}[ok]))
+			c.ctx.R.Quiet("mon C07-no-missed-wakeup", fmt.Sprintf("waiter %d is parked awaiting a change of %s from version ordinal %d, but the record is %s", w.idx, w.key, w.verOrd, map[bool]string{true: "at another version", false: "gone"}[ok])+c.how())
 			c.failed = true
 		}
 	}
@@ -282,7 +309,7 @@ func (c *wtCase) parkedOn(key string) int {
 }
 
 func runWaitersCase(ctx *Ctx, specs [][2]interface{}, script []string) {
-	c := &wtCase{ctx: ctx, st: inmem.New(), expiry: map[string]int{}, mainGid: goid(), timers: map[int64]wtTimer{}, lapsed: map[string]bool{},
+	c := &wtCase{ctx: ctx, script: script, st: inmem.New(), expiry: map[string]int{}, mainGid: goid(), timers: map[int64]wtTimer{}, lapsed: map[string]bool{},
 		base: time.Date(2031, 1, 1, 0, 0, 0, 0, time.UTC)}
 	// virtual time: the in-memory store reads the clock through verifNow() and takes its expiry timers from
 	// the harness, which fires them when the virtual clock has passed their deadline (`expire` op)
@@ -311,8 +338,11 @@ func runWaitersCase(ctx *Ctx, specs [][2]interface{}, script []string) {
 			var gate chan struct{}
 			c.mu.Lock()
 			for _, w := range c.waiters {
-				if w.started && w.gid == g && w.hold {
-					w.hold, w.atGate, gate = false, true, w.gate
+				if w.started && w.gid == g {
+					w.locks++
+					if w.hold || (w.holdAt > 0 && w.locks == w.holdAt) {
+						w.hold, w.atGate, gate = false, true, w.gate
+					}
 				}
 			}
 			c.mu.Unlock()
@@ -353,6 +383,13 @@ func runWaitersCase(ctx *Ctx, specs [][2]interface{}, script []string) {
 			var i int
 			fmt.Sscan(f[1], &i)
 			c.startWaiter(i)
+		case "startheld":
+			// start waiter i; it will stand before the k-th lock it takes
+			var i, k int
+			fmt.Sscan(f[1], &i)
+			fmt.Sscan(f[2], &k)
+			c.waiters[i].holdAt = k
+			c.startWaiter(i)
 		case "hold":
 			// park waiter i just before the lock of its NEXT critical section (whenever that comes)
 			var i int
@@ -377,7 +414,7 @@ func runWaitersCase(ctx *Ctx, specs [][2]interface{}, script []string) {
 			if c.parkedOn(w.key) > 1 {
 				c.nontriv = true
 			}
-			ctx.R.Op(fmt.Sprintf("cancel %d", i), "ok")
+			c.op(fmt.Sprintf("cancel %d", i), "ok")
 			w.cancel()
 			c.settle()
 		case "put", "putx":
@@ -523,13 +560,13 @@ func runWaitersCase(ctx *Ctx, specs [][2]interface{}, script []string) {
 			c.mu.Unlock()
 			delete(c.expiry, f[1])
 			c.lapsed[f[1]] = true
-			ctx.R.Op("expire "+f[1], "ok")
+			c.op("expire "+f[1], "ok")
 			// the clock is shared: every other record whose expiry lies before the new time has lapsed too
 			for _, k2 := range []string{"a", "b"} {
 				if e2, ok := c.expiry[k2]; ok && e2 < now {
 					delete(c.expiry, k2)
 					c.lapsed[k2] = true
-					ctx.R.Op("expire "+k2, "ok")
+					c.op("expire "+k2, "ok")
 				}
 			}
 			// … and every expiry timer whose deadline has passed fires
@@ -576,7 +613,7 @@ func runWaitersCase(ctx *Ctx, specs [][2]interface{}, script []string) {
 			c.settle()
 		}
 		if w.started && !w.done && !c.failed {
-			ctx.R.Op(fmt.Sprintf("cancel %d", w.idx), "ok")
+			c.op(fmt.Sprintf("cancel %d", w.idx), "ok")
 			w.cancel()
 			c.settle()
 		}
@@ -712,6 +749,15 @@ func runWaiters(ctx *Ctx) {
 			script = append(script, "release 0")
 			for i := 0; i < r.Range(1, 3); i++ {
 				script = append(script, []string{"put a", "delete a", "cancel 1", "cas a current"}[r.Intn(4)])
+			}
+		}
+		if r.Chance(1, 8) {
+			// directed: a write lands between two consecutive lock acquisitions of a waiter (for the code as it is:
+			// between being woken and looking again; for a check split from the registration: right in the gap)
+			specs = [][2]interface{}{{"a", 1}}
+			script = []string{"put a", "startheld 0 2", []string{"put a", "delete a", "cas a current"}[r.Intn(3)], "release 0"}
+			if r.Chance(1, 2) {
+				script = append(script, "put a")
 			}
 		}
 		if nw >= 2 && r.Chance(1, 6) {
